@@ -27,6 +27,7 @@ import EG.Lemmas.RoundedRectStyled
 import EG.Lemmas.Sector
 import EG.Lemmas.StyledArc
 import EG.Lemmas.StyledArcSector
+import EG.Lemmas.JoinsBBoxPolyMain
 namespace EG.C08.TerminationThick
 open EG EG.Joins EG.C01Thick
 
@@ -352,5 +353,92 @@ theorem rounded_rect_styled_pixels_terminate (st : Style) (r : RoundedRect) :
     exact h3
   rw [h2] at this
   exact this
+
+/-! ### pixel counts against the box area -/
+
+theorem sum_map_le_length_mul {α : Type} (L : List α) (g : α → Nat) (w : Nat) (h : ∀ a ∈ L, g a ≤ w) :
+    (L.map g).sum ≤ L.length * w := by
+  induction L with
+  | nil => simp
+  | cons a L ih =>
+    have h1 := h a List.mem_cons_self
+    have h2 := ih (fun b hb => h b (List.mem_cons_of_mem _ hb))
+    simp only [List.map_cons, List.sum_cons, List.length_cons, Nat.succ_mul]
+    omega
+
+/-- **`pixels()` of a styled rounded rectangle stays within the area of the stroke area's box**
+(both areas representable): one styled scanline per row of the stroke area, each no longer than the
+box is wide - `width * height` pixels at most, every style, radius and alignment. -/
+theorem rounded_rect_styled_pixels_le_box_area (st : Style) (r : RoundedRect)
+    (hS : (r.strokeArea st).InRange) (hF : (r.fillArea st).InRange) :
+    (r.styledPixels st).length ≤ (r.strokeArea st).rect.size.w * (r.strokeArea st).rect.size.h := by
+  obtain ⟨e, -⟩ := rounded_rect_styled_pixels_terminate st r
+  rw [e]
+  have h1 := StyledPixelsIt.pixelsSpec_length st.stroke st.fill
+    (RoundedRect.styledScanlines (r.strokeArea st) (r.fillArea st)).toList
+  have h2 := sum_map_le_length_mul
+    (RoundedRect.styledScanlines (r.strokeArea st) (r.fillArea st)).toList
+    (fun l => StyledPixelsIt.lenOf l.strokeLeft + StyledPixelsIt.lenOf l.fill + StyledPixelsIt.lenOf l.strokeRight)
+    (r.strokeArea st).rect.size.w (by
+      intro l hl
+      obtain ⟨y, -, hok⟩ := RoundedRect.lines_ok hS hF l hl
+      have ho := hok.ord
+      have he := hok.emp
+      have hr := hok.range
+      unfold StyledPixelsIt.lenOf StyledScanline.strokeLeft StyledScanline.fill StyledScanline.strokeRight
+      simp only
+      by_cases hc : l.ss ≤ l.se
+      · have := ho hc; omega
+      · have := he (by omega); omega)
+  have h3 : (RoundedRect.styledScanlines (r.strokeArea st) (r.fillArea st)).toList.length =
+      (r.strokeArea st).rect.size.h := by
+    rw [(rounded_rect_styled_scanlines_terminate (r.strokeArea st) (r.fillArea st)).2]
+    have e1 : (RoundedRect.styledScanlines (r.strokeArea st) (r.fillArea st)).scanlines.rowsStart =
+        (r.strokeArea st).rect.tl.y := (RoundedRect.new_rows _ hS).1
+    have e2 : (RoundedRect.styledScanlines (r.strokeArea st) (r.fillArea st)).scanlines.rowsEnd =
+        (r.strokeArea st).rect.tl.y + (r.strokeArea st).rect.size.h := (RoundedRect.new_rows _ hS).2
+    rw [e1, e2]; omega
+  rw [h3, Nat.mul_comm] at h2
+  omega
+example : let st : Style := ⟨some 1, some 2, 3, .center⟩
+    let r : RoundedRect := ⟨⟨⟨-3, 2⟩, ⟨9, 7⟩⟩, ⟨⟨3, 2⟩, ⟨0, 0⟩, ⟨9, 9⟩, ⟨1, 4⟩⟩⟩
+    (r.strokeArea st).InRange ∧ (r.fillArea st).InRange := by decide
+
+/-- **`pixels()` of a stroked polyline (width > 1) against its bounding box**: under the decidable
+box guard of C02 (`PolyBBoxGuard`, Props/C02/JoinsBBox.lean) every scanline is at most as long as
+the box is wide, so `pixels()` yields at most `(rows * (n + 3) + n + 2) * width` points (`rows`,
+`width` of the bounding box - the styled bounding box is the untranslated one moved by `translate`,
+same size -, `n` vertices). -/
+theorem polyline_pixels_le_box (pl : Polyline) (w : Nat) (hw : 2 ≤ w) (hg : PolyBBoxGuard pl w) :
+    ∃ ubb ps, untranslatedBoundingBox pl w = some ubb ∧
+      styledBoundingBox pl w = some (ubb.translate pl.translate) ∧ pixels pl w = some ps ∧
+      ps.length ≤ (ubb.rows.length * (pl.vertices.length + 3) + pl.vertices.length + 2) * ubb.size.w := by
+  obtain ⟨ubb, it, L, pit, hubb, hit, hrun, hL, hlen, hd, hpit, hprun, hp, hcount⟩ := polyline_terminates pl w hw
+  have hbb : styledBoundingBox pl w = some (ubb.translate pl.translate) := by
+    unfold styledBoundingBox
+    simp only [hubb, Option.bind_eq_bind, Option.bind_some, pure]
+  have hin := pixels_in_bbox pl w hw hg _ hbb _ hp
+  refine ⟨ubb, _, hubb, hbb, hp, ?_⟩
+  rw [hcount]
+  have hline : ∀ s ∈ L, (s.xe - s.xs).toNat ≤ ubb.size.w := by
+    intro s hs
+    by_cases hemp : s.xs < s.xe
+    · have m1 : (⟨s.xs, s.y⟩ : Pt) + pl.translate ∈ (L.flatMap Scanline.points).map (· + pl.translate) :=
+        List.mem_map.mpr ⟨_, List.mem_flatMap.mpr ⟨s, hs,
+          Scanline.mem_points.mpr ⟨rfl, by simp only; omega, by simp only; omega⟩⟩, rfl⟩
+      have m2 : (⟨s.xe - 1, s.y⟩ : Pt) + pl.translate ∈ (L.flatMap Scanline.points).map (· + pl.translate) :=
+        List.mem_map.mpr ⟨_, List.mem_flatMap.mpr ⟨s, hs,
+          Scanline.mem_points.mpr ⟨rfl, by simp only; omega, by simp only; omega⟩⟩, rfl⟩
+      have c1 := hin _ m1
+      have c2 := hin _ m2
+      rw [Rect.contains_iff] at c1 c2
+      have hsz : (ubb.translate pl.translate).size.w = ubb.size.w := rfl
+      rw [hsz] at c1 c2
+      simp only [Pt.add_x] at c1 c2
+      omega
+    · omega
+  have h2 := sum_map_le_length_mul L (fun s => (s.xe - s.xs).toNat) _ hline
+  exact Nat.le_trans h2 (Nat.mul_le_mul_right _ hlen)
+example : (2 : Nat) ≤ 5 ∧ PolyBBoxGuard ⟨⟨-7, -9⟩, [⟨0, 0⟩, ⟨9, 1⟩, ⟨0, 2⟩, ⟨0, 2⟩, ⟨4, -6⟩]⟩ 5 := by decide
 
 end EG.C08.TerminationThick
